@@ -59,6 +59,8 @@ type c15Rpt struct {
 	DurationNanos int64 `json:"duration_nanos,omitempty"`
 	// report.Options.NodeFraction (in-process top only): produces the "Dropped N nodes (cum <= L)" line
 	NodeFraction float64 `json:"node_fraction,omitempty"`
+	// derived second stage of a round trip: one single-frame sample per function, no root frame
+	NoRoot bool `json:"no_root,omitempty"`
 }
 
 func (rp *c15Rpt) ratio() float64 {
@@ -156,6 +158,79 @@ func c15rptCLI(pprof, dir string, id int, from, to string, rp *c15Rpt) (string, 
 	cmd.Env = append(os.Environ(), "PPROF_TMPDIR="+dir, "HOME="+dir)
 	out, err := cmd.CombinedOutput()
 	return string(out), err
+}
+
+// c15rptRoundtrip feeds pprof's own output back in: stage 1 `pprof -topproto -unit=minimum -output=F`
+// writes the top nodes as a profile whose sample types carry the unit pprof chose (a canonical
+// printed name such as "kB", "hrs", "M*GCU"); stage 2 renders F with `pprof -top -unit=<to>`.
+func c15rptRoundtrip(pprof, dir string, id int, from, to string, rp *c15Rpt) (stage1 []byte, out2 string, err error) {
+	p := c15rptProfile(from, rp)
+	in := filepath.Join(dir, fmt.Sprintf("rt%d-in.pb.gz", id))
+	mid := filepath.Join(dir, fmt.Sprintf("rt%d-mid.pb.gz", id))
+	f, err := os.Create(in)
+	if err != nil {
+		return nil, "", err
+	}
+	if err := p.Write(f); err != nil {
+		f.Close()
+		return nil, "", err
+	}
+	f.Close()
+	env := append(os.Environ(), "PPROF_TMPDIR="+dir, "HOME="+dir)
+	cmd := exec.Command(pprof, "-topproto", "-unit=minimum", "-nodefraction=0", "-edgefraction=0", "-nodecount=100000", "-output="+mid, in)
+	cmd.Env = env
+	if o, err := cmd.CombinedOutput(); err != nil {
+		return nil, string(o), fmt.Errorf("stage 1 (-topproto): %v", err)
+	}
+	stage1, err = os.ReadFile(mid)
+	if err != nil {
+		return nil, "", err
+	}
+	args := []string{"-top", "-nodefraction=0", "-edgefraction=0", "-nodecount=100000", "-unit=" + to}
+	if rp.DivideBy != 0 {
+		args = append(args, fmt.Sprintf("-divide_by=%v", rp.DivideBy))
+	}
+	cmd = exec.Command(pprof, append(args, mid)...)
+	cmd.Env = env
+	o, err := cmd.CombinedOutput()
+	if err != nil {
+		return stage1, string(o), fmt.Errorf("stage 2 (-top of the -topproto output): %v", err)
+	}
+	return stage1, string(o), nil
+}
+
+// roundtripEval: stage 1 is judged as a -topproto report of the original profile; stage 2 as a
+// -top report of the profile stage 1 wrote (its unit string is pprof's own printed name).
+func (st *c15State) roundtripEval(cs c15Case, stage1 []byte, out2 string) bool {
+	rp := cs.Rpt
+	from, to := c15unhex(cs.From), c15unhex(cs.To)
+	q1 := *rp
+	q1.Mode, q1.DivideBy, q1.NodeFraction = "topproto", 0, 0
+	c1 := cs
+	c1.Rpt = &q1
+	x1 := &c15rptCtx{st: st, cs: c1, from: from, to: "minimum", rp: &q1, units: map[string]string{}, partner: true}
+	x1.cs.Text = cs.Text + " [stage 1: -topproto -unit=minimum]"
+	x1.evalTopProto(string(stage1))
+	if x1.failed {
+		return true
+	}
+	q := c15quantities(string(stage1), "topproto")
+	U := q["unit"]
+	q2 := c15Rpt{Mode: "top", CLI: true, NoRoot: true, DivideBy: rp.DivideBy, DurationNanos: rp.DurationNanos}
+	for i := range rp.Samples {
+		g, err := strconv.ParseInt(q["flat:"+fmt.Sprintf("fn%03d", i)], 10, 64)
+		if err != nil {
+			st.c.Violation("C15/report/roundtrip/topproto-node-missing", fmt.Sprintf("%s: fn%03d is not in the -topproto output", cs.Text, i), cs)
+			return true
+		}
+		q2.Samples = append(q2.Samples, c15RptSample{Value: g})
+	}
+	c2 := cs
+	x2 := &c15rptCtx{st: st, cs: c2, from: U, to: to, rp: &q2, units: map[string]string{}, partner: true}
+	x2.cs.Text = fmt.Sprintf("%s [stage 2: pprof -top -unit=%s of the -topproto output, whose sample unit is %q]", cs.Text, to, U)
+	st.c.Res.Hit("rpt:roundtrip-unit=" + U)
+	x2.evalTop(out2, "top", "")
+	return st.recognise(U).known
 }
 
 // ---------------------------------------------------------------------------------------------
@@ -898,6 +973,9 @@ func (x *c15rptCtx) evalTop(out string, kind string, rootKey string) {
 		if v < 0 {
 			v = -v
 		}
+		if x.rp.NoRoot && v == 0 {
+			return true // a function whose value truncated to 0 may be left out
+		}
 		return x.rp.NodeFraction > 0 && v <= cutoff+1 // +1: float rounding of the product
 	}
 	leaf := map[string]node{}
@@ -913,7 +991,7 @@ func (x *c15rptCtx) evalTop(out string, kind string, rootKey string) {
 			}
 		}
 		// labels that print as "0" fit every unit: the totals decide then
-		if r, ok := leaf["root"]; ok && !x.valOK(r.cum, sum, u) {
+		if r, ok := leaf["root"]; ok && !x.rp.NoRoot && !x.valOK(r.cum, sum, u) {
 			return false
 		}
 		if m := c15legend.FindStringSubmatch(out); m != nil && !x.valOK(m[3], abssum, u) {
@@ -959,7 +1037,7 @@ func (x *c15rptCtx) evalTop(out string, kind string, rootKey string) {
 		x.valLabel("flat", n.flat, s.Value, U)
 		x.valLabel("cum", n.cum, s.Value, U)
 	}
-	if r, ok := leaf["root"]; ok {
+	if r, ok := leaf["root"]; ok && !x.rp.NoRoot {
 		x.valLabel("flat", r.flat, 0, U)
 		x.valLabel("cum", r.cum, sum, U)
 	}
@@ -1029,6 +1107,9 @@ func (x *c15rptCtx) evalTop(out string, kind string, rootKey string) {
 // sample (flat = cum = value) and the root (flat 0, cum Σ values).
 func (x *c15rptCtx) modelUnit(sum, abssum int64, callgrind bool) (string, bool) {
 	var b strings.Builder
+	if x.rp.NoRoot {
+		return "", false
+	}
 	fmt.Fprintf(&b, "c15.selectunit %d", len(x.rp.Samples)+1)
 	for _, s := range x.rp.Samples {
 		fmt.Fprintf(&b, " %d %d", s.Value, s.Value)
@@ -1059,7 +1140,7 @@ func (x *c15rptCtx) consistentWith(leaf map[string]c15node, sum, abssum int64, o
 			return false
 		}
 	}
-	if r, ok := leaf["root"]; ok && !x.valOK(r.cum, sum, u) {
+	if r, ok := leaf["root"]; ok && !x.rp.NoRoot && !x.valOK(r.cum, sum, u) {
 		return false
 	}
 	if m := c15legend.FindStringSubmatch(out); m != nil && !x.valOK(m[3], abssum, u) {
@@ -1390,6 +1471,14 @@ func (st *c15State) rptCase(cs c15Case) bool {
 			return false
 		}
 		defer os.RemoveAll(dir)
+		if cs.Rpt.Mode == "roundtrip" {
+			s1, o2, rerr := c15rptRoundtrip(c.Pprof, dir, 0, c15unhex(cs.From), c15unhex(cs.To), cs.Rpt)
+			if rerr != nil {
+				c.Violation("C15/report/pprof-failed", cs.Text+": "+rerr.Error()+" "+c15trunc(o2), cs)
+				return false
+			}
+			return st.roundtripEval(cs, s1, o2)
+		}
 		o, rerr := c15rptCLI(c.Pprof, dir, 0, c15unhex(cs.From), c15unhex(cs.To), cs.Rpt)
 		if rerr != nil {
 			c.Violation("C15/report/pprof-failed", cs.Text+": "+rerr.Error()+" "+c15trunc(o), cs)
@@ -1478,6 +1567,30 @@ func (st *c15State) genRpt(r *Rng) (from, to string, rp *c15Rpt) {
 			from += "s"
 		}
 		small = r.Chance(70)
+	}
+	// pprof's own printed names fed back in as the sample unit ("kB", "hrs", "M*GCU" …: what
+	// -topproto writes), and mixed-case spellings of the names
+	if rc := st.recognise(from); rc.known {
+		switch {
+		case r.Chance(30):
+			fu := st.spec[rc.fam].units[r.Intn(len(st.spec[rc.fam].units))]
+			if small {
+				for _, u := range st.spec[rc.fam].units {
+					if u.f.Cmp(rc.f) == 0 {
+						fu = u
+					}
+				}
+			}
+			from = fu.display
+		case r.Chance(15):
+			b := []byte(from)
+			for i := range b {
+				if b[i] >= 'a' && b[i] <= 'z' && r.Bool() {
+					b[i] -= 32
+				}
+			}
+			from = string(b)
+		}
 	}
 	if r.Chance(12) {
 		rp.NodeFraction = []float64{0.05, 0.2}[r.Intn(2)]
@@ -1587,10 +1700,10 @@ func (st *c15State) reportStream(r *Rng) {
 			c.Res.Sample(map[string]any{"kind": "rpt", "from": from, "to": to, "samples": rp.Samples})
 		}
 		// a share of the cases also through the real binary
-		if k%4 == 0 && c.Pprof != "" {
-			modes := []string{"tags", "traces", "tree", "tagroot", "peek", "dot", "top"}
+		if k%3 == 0 && c.Pprof != "" {
+			modes := []string{"tags", "roundtrip", "traces", "tree", "tagroot", "roundtrip", "peek", "dot", "top"}
 			q := *rp
-			q.CLI, q.Mode, q.Reverse = true, modes[(k/4)%len(modes)], (k/4)%2 == 1
+			q.CLI, q.Mode, q.Reverse = true, modes[(k/3)%len(modes)], (k/3)%2 == 1
 			if q.Mode == "tagroot" {
 				q.RootKey = "taga"
 			}
@@ -1610,6 +1723,7 @@ func (st *c15State) reportStream(r *Rng) {
 	}
 	defer os.RemoveAll(dir)
 	outs := make([]string, len(jobs))
+	stage1 := make([][]byte, len(jobs))
 	errs := make([]error, len(jobs))
 	var wg sync.WaitGroup
 	sem := make(chan struct{}, 12)
@@ -1620,6 +1734,10 @@ func (st *c15State) reportStream(r *Rng) {
 			sem <- struct{}{}
 			defer func() { <-sem }()
 			cs := jobs[i].cs
+			if cs.Rpt.Mode == "roundtrip" {
+				stage1[i], outs[i], errs[i] = c15rptRoundtrip(c.Pprof, dir, i, c15unhex(cs.From), c15unhex(cs.To), cs.Rpt)
+				return
+			}
 			outs[i], errs[i] = c15rptCLI(c.Pprof, dir, i, c15unhex(cs.From), c15unhex(cs.To), cs.Rpt)
 		}(i)
 	}
@@ -1630,6 +1748,8 @@ func (st *c15State) reportStream(r *Rng) {
 		nt := false
 		if errs[i] != nil {
 			c.Violation("C15/report/pprof-failed", cs.Text+": "+errs[i].Error()+" "+c15trunc(outs[i]), cs)
+		} else if cs.Rpt.Mode == "roundtrip" {
+			nt = st.roundtripEval(cs, stage1[i], outs[i])
 		} else {
 			nt = st.rptEval(cs, outs[i])
 		}
